@@ -276,6 +276,26 @@ pub fn run(out_prefix: &str, shards: usize, families: &[String], seed: u64, full
                     emit(&mut out, &mut stats, &p, false);
                 }
             }
+            // three or four copies of one pattern together with its suffixes / the empty pattern,
+            // in every position (match lists with several own entries AND inherited ones)
+            "dups" => {
+                for p in gen::all_strings(b"ab", 2).into_iter().filter(|p| !p.is_empty()) {
+                    for k in [3usize, 4] {
+                        let mut sufs: Vec<Vec<u8>> = (1..p.len()).map(|i| p[i..].to_vec()).collect();
+                        sufs.push(vec![]);
+                        for q in &sufs {
+                            for pos in [0usize, 1, k] {
+                                let mut l: Pats = vec![p.clone(); k];
+                                l.insert(pos.min(l.len()), q.clone());
+                                emit(&mut out, &mut stats, &l, false);
+                                let mut l2 = l.clone();
+                                l2.push(q.clone());
+                                emit(&mut out, &mut stats, &l2, false);
+                            }
+                        }
+                    }
+                }
+            }
             // small exhaustive families over bytes at the edges of the byte range
             "edge" => {
                 for alpha in [&[0x01u8, 0x02][..], &[0xFE, 0xFF][..], &[0x00, 0x7F][..], &[0x80, 0x01][..]] {
